@@ -175,6 +175,72 @@ theorem c16_totp_once (last t1 t2 : Int) (hc : t2 < t1 + 2) :
     have : t1 + 2 > t2 := by omega
     simp [spacing, this] at h2
 
+/-! ### a hardware-token challenge is honoured at most once -/
+
+def ChInv (s : ChSt) : Prop :=
+  s.honoured.Nodup ∧ (∀ c ∈ s.honoured, c < s.next) ∧
+  (∀ c, s.pending = some c → c < s.next ∧ c ∉ s.honoured)
+
+theorem chStep_inv (s : ChSt) (e : ChEv) (h : ChInv s) : ChInv (chStep true s e) := by
+  obtain ⟨hn, hl, hp⟩ := h
+  cases e with
+  | begin =>
+    refine ⟨hn, fun c hc => Nat.lt_succ_of_lt (hl c hc), ?_⟩
+    intro c hc
+    simp only [chStep] at hc
+    injection hc with hc; subst hc
+    exact ⟨Nat.lt_succ_self _, fun hm => Nat.lt_irrefl _ (hl _ hm)⟩
+  | lookup r => exact ⟨hn, hl, hp⟩
+  | expire => exact ⟨hn, hl, fun c hc => by simp [chStep] at hc⟩
+  | consume r =>
+    simp only [chStep]
+    cases hs : s.seen r with
+    | none => exact ⟨hn, hl, hp⟩
+    | some c =>
+      simp only [if_true]
+      by_cases hpc : s.pending = some c
+      · rw [if_pos hpc]
+        have := hp c hpc
+        refine ⟨List.nodup_cons.mpr ⟨this.2, hn⟩, ?_, fun d hd => by simp at hd⟩
+        intro d hd
+        rcases List.mem_cons.mp hd with rfl | hd
+        · exact this.1
+        · exact hl d hd
+      · rw [if_neg hpc]; exact ⟨hn, hl, hp⟩
+
+/-- **One signed assertion, any number of simultaneous presentations**: over every interleaving of
+challenge requests, lookups, consumptions (of any number of concurrent requests) and cleanup runs, no
+challenge is honoured twice — with the compare-and-remove of `consumeLoginChallenge`. -/
+theorem c16_challenge_once (evs : List ChEv) : (chRun true ChSt.init evs).honoured.Nodup := by
+  have : ∀ s, ChInv s → ChInv (chRun true s evs) := by
+    induction evs with
+    | nil => intro s h; exact h
+    | cons e rest ih => intro s h; exact ih _ (chStep_inv s e h)
+  have h0 : ChInv ChSt.init := by
+    refine ⟨List.nodup_nil, ?_, ?_⟩
+    · intro c hc; simp [ChSt.init] at hc
+    · intro c hc; simp [ChSt.init] at hc
+  exact (this ChSt.init h0).1
+
+/-- **As found** (lookup and unconditional delete in separate critical sections): two requests that both
+look the challenge up before either removes it are both honoured. -/
+theorem c16_challenge_unfixed_counterexample :
+    (chRun false ChSt.init [.begin, .lookup 0, .lookup 1, .consume 0, .consume 1]).honoured = [0, 0] ∧
+    (chRun true ChSt.init [.begin, .lookup 0, .lookup 1, .consume 0, .consume 1]).honoured = [0] := by
+  decide
+
+/-- non-vacuity: a presentation alone is honoured, and a second challenge can be honoured after it -/
+example : (chRun true ChSt.init [.begin, .lookup 0, .consume 0, .begin, .lookup 1, .consume 1]).honoured = [1, 0] := by
+  decide
+
+/-- **Who removes a pending challenge** (regenerated): only `consumeLoginChallenge` (the compare-and-remove
+the model's `consume` transcribes; body pinned below) and the periodic cleanup; the handlers themselves only
+read the map or store a fresh challenge. -/
+theorem c16_challenge_sites :
+    KM.Gen.challengeRemovers = ["consumeLoginChallenge".toList, "performStateCleanup".toList] ∧
+    KM.Gen.challengeIndexers = ["consumeLoginChallenge".toList, "u2fSignRequest".toList, "u2fSignResponse".toList,
+      "webauthnAuthFinish".toList, "webauthnAuthLogin".toList] := by decide
+
 /-! ### what does not hold (known findings — witnesses) -/
 
 def tokensFixture : Profile :=
@@ -216,7 +282,8 @@ end KM.Conc
 namespace KM.Conc
 
 /-- **Source pins** (regenerated): SHA-256 (first 80 bits) of the signature and body, whitespace-normalised,
-of the load/decide/save handlers `KM.Conc.decide` transcribes and the storage primitives it treats as atomic — equal to the values recorded when the model was last
+of the load/decide/save handlers `KM.Conc.decide` transcribes, the storage primitives it treats as atomic, and the
+challenge lookup / consume steps `KM.Conc.chStep` transcribes — equal to the values recorded when the model was last
 read against the code. Any edit, harmless or not, breaks this tie. -/
 theorem c16_source_pins :
     KM.Gen.Pins.LoadUserProfile = "6c94018184c626ad2b47" ∧
@@ -225,8 +292,13 @@ theorem c16_source_pins :
     KM.Gen.Pins.totpTokenManagerHandler = "c62269ed8bc05f5b35ab" ∧
     KM.Gen.Pins.BootstrapOtpAuthHandler = "bd21ab21a6f2c34f27be" ∧
     KM.Gen.Pins.userBootstrapOtpHash = "b6575c4fc52137bab8fb" ∧
-    KM.Gen.Pins.performStateCleanup = "6927c0c0ef032c2ee15c" := by
-  exact ⟨rfl, rfl, rfl, rfl, rfl, rfl, rfl⟩
+    KM.Gen.Pins.performStateCleanup = "6927c0c0ef032c2ee15c" ∧
+    KM.Gen.Pins.consumeLoginChallenge = "0bd6f92d7c6e11787aa0" ∧
+    KM.Gen.Pins.u2fSignRequest = "0fc992789dbf32c74202" ∧
+    KM.Gen.Pins.u2fSignResponse = "7a87d1c56ebeff1164e7" ∧
+    KM.Gen.Pins.webauthnAuthLogin = "a9de7e8bace8d59bb16e" ∧
+    KM.Gen.Pins.webauthnAuthFinish = "da6e8a8cc3fe9baad399" := by
+  exact ⟨rfl, rfl, rfl, rfl, rfl, rfl, rfl, rfl, rfl, rfl, rfl, rfl⟩
 
 end KM.Conc
 -- END PINS
